@@ -439,7 +439,9 @@ type endingResult struct {
 func oneEnding(way, stage string) endingResult {
 	maxIdle := time.Hour
 	if way == "idle-timeout" {
-		maxIdle = 300 * time.Millisecond
+		// above the reader's 1 s receive timeout: a session whose Recv keeps returning ErrTimeout
+		// (what every real backend session does while nothing arrives) must still age
+		maxIdle = 2500 * time.Millisecond
 	}
 	ctx, cancel := context.WithCancel(context.Background())
 	defer cancel()
@@ -549,7 +551,9 @@ func oneEnding(way, stage string) endingResult {
 			}
 		}()
 	case "idle-timeout":
-		bound = maxIdle + 5*time.Second + 1500*time.Millisecond // the idle monitor looks every 5 s
+		// established, had traffic, now silent: Recv returns netceptor.ErrTimeout every second.
+		// The idle monitor looks every 5 s.
+		bound = maxIdle + 5*time.Second + 2*time.Second
 	}
 	var c, r, rt bool
 	closed := false
